@@ -131,7 +131,37 @@ def gen_programs(rnd, quick):
                   " (define (fill v n live) (if (= n 0) 0 (begin (vector-set! v (modulo n live) (box n)) (fill v (- n 1) live))))"
                   " (let ((t (spawn-native-thread (lambda () (wg %d)))) (v (make-vector 14000 (box 0)))) (fill v 70000 14000)"
                   " (thread-join! t) (list g (vector-length v)))" % nn, {"assign", "alloc", "k16a"}))
+    # (8) K16c (fixed by /repo aaa53594): boxes allocated by compiled code while another thread holds the heap lock
+    locs = ("(define (locals n) (let ((acc 0)) (let loop ((i 0)) (if (< i n) (begin (set! acc (+ acc 1)) (loop (+ i 1))) acc))))"
+            " (define (many k) (if (= k 0) (locals 3000) (begin (locals 5) (many (- k 1)))))")
+    progs.append(("k16c-jitbox-vs-global-set", "(3000 300)", "(define g 0) (define (bump n) (if (= n 0) 0 (begin (set! g (+ g 1)) (bump (- n 1))))) "
+                  + locs + " (define ch (channels/new)) (let ((t (spawn-native-thread (lambda () (channel/recv (channels-receiver ch)) (many 20000)))))"
+                  " (channel/send (channels-sender ch) 1) (bump 300) (list (thread-join! t) g))", {"assign", "k16c"}))
+    progs.append(("k16c-two-threads-local-set", "(3000 3000)", locs + " (let ((ts (list (spawn-native-thread (lambda () (many 20000)))"
+                  " (spawn-native-thread (lambda () (many 20000)))))) (map thread-join! ts))", {"alloc", "k16c"}))
+    progs.append(("k16c-global-set-in-named-let", "(1 1)", "(define g 0) (define h 0)"
+                  " (define (wg n) (let loop ((i 0)) (if (< i n) (begin (set! g (+ g 1)) (loop (+ i 1))) 1)))"
+                  " (define (wh n) (let loop ((i 0)) (if (< i n) (begin (set! h (+ h 1)) (loop (+ i 1))) 1)))"
+                  " (define ca (channels/new)) (define cb (channels/new))"
+                  " (let ((ts (list (spawn-native-thread (lambda () (channel/recv (channels-receiver ca)) (wg 3000)))"
+                  " (spawn-native-thread (lambda () (channel/recv (channels-receiver cb)) (wh 3000))))))"
+                  " (channel/send (channels-sender ca) 1) (channel/send (channels-sender cb) 1) (map thread-join! ts))", {"assign", "k16c"}))
+    # (9) K16e (fixed by /repo 5a7e78f0): thread-finished? while another thread joins the same handle
+    progs.append(("k16e-finished-during-join", "(#false #true 7 #true)",
+                  "(let* ((t (spawn-native-thread (lambda () (time/sleep-ms 400) 7))) (j (spawn-native-thread (lambda () (thread-join! t)))))"
+                  " (time/sleep-ms 60) (let ((t0 (current-milliseconds))) (let ((f (thread-finished? t))) (let ((dt (- (current-milliseconds) t0)))"
+                  " (list f (< dt 200) (thread-join! j) (thread-finished? t))))))", set()))
     return progs
+
+
+MODS = os.path.join(C.BUILD, "C16", "mods")
+
+
+def write_modules(text=None):
+    os.makedirs(MODS, exist_ok=True)
+    with open(os.path.join(MODS, "arith.scm"), "w") as f:
+        f.write("(provide count-up mix)\n(define (count-up n limit) (if (< n limit) (count-up (+ n 1) limit) n))\n"
+                "(define (mix n acc limit) (if (< n limit) (mix (+ n 1) (+ (* acc 3) 1) limit) acc))\n")
 
 
 # ---------------------------------------------------------------------------------------------- running
@@ -170,7 +200,8 @@ def model_corpus(ctx, stats):
 
 def run(ctx):
     rnd = random.Random(ctx.seed * 104729 + 16)
-    stats = {"runs": 0, "pass": 0, "k16b": 0, "aborted_k15a": 0, "aborted_alloc": 0, "model_cases": 0, "hangs": [],
+    write_modules()
+    stats = {"runs": 0, "pass": 0, "k16b": 0, "k16d": 0, "aborted_k15a": 0, "aborted_alloc": 0, "model_cases": 0, "hangs": [],
              "stops": 0, "gcs": 0, "dispatched": 0, "samples": [], "retried": 0}
     known = {k["id"]: k for k in ctx.load_known()}
     all_known = set(re.findall(r"^finding:.*?id=(\S+)", open(os.path.join(C.VERIF, "KNOWN_FINDINGS.txt")).read(), re.M))
@@ -261,6 +292,17 @@ def run(ctx):
                               % (known["K16b"]["replay"], len(stuck), len(res), ", ".join(sorted(stuck)[:4])))
         else:
             ctx.notes.append("open finding K16b did not reproduce (all witness cases finished)")
+    # open finding K16d: a native self-tail loop never publishes (its witness: the assignment waits for the whole loop)
+    if "K16d" in known:
+        res = replay_file(os.path.join(C.VERIF, known["K16d"]["replay"]))
+        slow = [k for k, v in res.items() if v.get("ok") != "1"]
+        stats["k16d"] = len(slow)
+        if slow:
+            v = res[slow[0]]
+            ctx.known_finding("id=K16d class=jit_native_loop_never_publishes replay=%s (%s: %s value=%s)"
+                              % (known["K16d"]["replay"], slow[0], v.get("outcome"), v.get("value")))
+        else:
+            ctx.notes.append("open finding K16d did not reproduce (the assignment completed while the native loop ran)")
     if not pr["ok"] and not ctx.violations:
         ctx.violation("C16-proof-broken.txt", "proof obligations of SteelVerif.C16 that no longer check:\n" + "\n".join(
             "%s: %s" % f for f in pr["failed"]) + "\n", no_input=True)
@@ -272,15 +314,15 @@ def run(ctx):
                                            "regex translator over vm.rs / vm/jit.rs / transducers.rs / lazy_stream.rs / engine.rs"],
         "evaluations": stats["runs"] + stats["model_cases"],
         "distinct_nontrivial": len([1 for j in jobs if True]) // (1 if ctx.quick() else 3),
-        "rule": "program = generated from 7 templates (per-thread global counters released by a start signal, allocation with a live set above the "
+        "rule": "program = generated from 9 templates (per-thread global counters released by a start signal, allocation with a live set above the "
                 "full-collection threshold, joins forward/reverse/nested, k senders -> 1 receiver, mutex-protected counter while main assigns and "
-                "allocates, blocking calls direct / via map / via for-each, the K16a regression programs) x thread count x JIT on/off; sizes from the PRNG "
+                "allocates, blocking calls direct / via map / via for-each, the K16a / K16c / K16e regression programs) x thread count x JIT on/off; sizes from the PRNG "
                 "seeded by VERIF_SEED; every program is non-trivial (>= 1 spawned thread) and distinct by name",
         "samples": stats["samples"],
         "programs": len(progs), "jit_modes": 2, "passed": stats["pass"], "hangs": stats["hangs"],
         "stop_rounds_completed_in_programs": stats["stops"], "collections_in_programs": stats["gcs"],
         "runs_repeated_after_C15_K15a_abort": stats["aborted_k15a"], "runs_repeated_after_allocator_abort": stats["aborted_alloc"],
-        "k16b_witness_cases_stuck": stats["k16b"], "model_schedules": stats["model_cases"],
+        "k16b_witness_cases_stuck": stats["k16b"], "k16d_witness_cases_slow": stats["k16d"], "model_schedules": stats["model_cases"],
         "translator": {"call_arms": len(arms), "publishing": len([a for a in arms if a.get("publishes")]),
                        "gate_sites": tr.get("gate_sites", [])},
         "axioms": pr.get("axioms", {}), "proof_failures": ["%s: %s" % f for f in pr["failed"]],
@@ -291,6 +333,7 @@ def run(ctx):
 
 def replay_file(path):
     text = open(path).read()
+    write_modules()
     jm = re.search(r"^# jit=(\w+)", text, re.M)
     res = {}
     for l in text.splitlines():
